@@ -1,11 +1,15 @@
 #!/usr/bin/env python3
 """Print the brief given to an independent sub-agent that writes seeded breaking changes for one property.
 The brief contains only the property text and a scratch worktree path - nothing from /verif."""
+import glob
 import json
+import os
 import sys
 
-pid = sys.argv[1]
-n = sys.argv[2] if len(sys.argv) > 2 else ""
+args = [a for a in sys.argv[1:] if not a.startswith("--")]
+pid = args[0]
+n = args[1] if len(args) > 1 else ""
+HARD = "--hard" in sys.argv  # later rounds: list earlier changes (one line each) and ask for subtler ones
 wt = f"/tmp/seed_{pid}{n}"
 p = [json.loads(l) for l in open("/verif/properties.jsonl") if json.loads(l)["id"] == pid][0]
 print(f"""You are helping evaluate a verification effort for the open-source PyTorch library BioMedIA/deepali (image / point-set registration: oriented sampling grids, coordinate transforms, flow fields, B-splines, registration losses). You have your own scratch git worktree of the repository at {wt} (a checkout of the current code). Work ONLY inside that directory and {wt}_out (create it) for your deliverables. Do NOT read or write anything under /verif or /repo. Python: /venv/bin/python; the package is installed editable from another checkout, so ALWAYS run with PYTHONPATH={wt}/src so that your worktree's code is what gets imported (verify once: `PYTHONPATH={wt}/src /venv/bin/python -c "import deepali.core; print(deepali.core.__file__)"` must print a path under {wt}).
@@ -16,4 +20,16 @@ Quantified over: {p['quantifier']['text']}
 
 TASK: produce TWO independent, realistic code changes to the library (each a separate small patch against the worktree's HEAD, of the kind a maintainer might introduce by mistake during a refactor, clean-up or "optimisation"), each of which BREAKS this property while (a) the package still imports and (b) the existing test-suite still passes: `cd {wt} && PYTHONPATH={wt}/src /venv/bin/python -m pytest -q -p no:cacheprovider --timeout=900 tests` (88 tests pass on the unmodified code; the machine is shared and heavily loaded: ALWAYS export OMP_NUM_THREADS=1 MKL_NUM_THREADS=1 before running python or pytest and call torch.set_num_threads(1) in your scripts, otherwise runs can hang for many minutes). Prefer changes that need something SPECIFIC to manifest - an unusual but valid input (a particular size parity, an anisotropic AND rotated grid, align_corners=False, batch size > 1, a particular argument form or dtype), a multi-step sequence of operations, or two cooperating sites that each look fine alone - rather than changes that ordinary use would expose at once. The two changes must differ in kind and location. First check with a small script that the behaviour you are about to break is actually correct on the unmodified code (the library has bugs of its own in untested paths; do not build on one).
 
-For each change i in {{1, 2}} deliver in {wt}_out/<i>/: `patch.diff` (output of `git diff` in the worktree with ONLY that change applied), `demo.py` (a small stand-alone program that exits 0 and prints PASS on the unmodified code and exits 1 and prints FAIL with the change applied - run it both ways yourself with PYTHONPATH set), and `meta.json` with keys "property" ("{pid}"), "what" (one-line description of the change), "needs" (what is needed for it to manifest), "ran" (the commands you ran and their outcomes: test-suite passed with the change, demo fails with / passes without). Never use `git stash` (the stash is shared between all worktrees of the repository; other people work in sibling worktrees) - save your diff to a file and use `git apply` / `git apply -R` / `git checkout -- .` instead. Leave the worktree clean (`git checkout -- .`) when done. Finish with a brief report (what each change is, where, what it needs to manifest).""")
+For each change i in {{1, 2}} deliver in {wt}_out/<i>/: `patch.diff` (output of `git diff` in the worktree with ONLY that change applied), `demo.py` (a small stand-alone program that exits 0 and prints PASS on the unmodified code and exits 1 and prints FAIL with the change applied - run it both ways yourself with PYTHONPATH set), and `meta.json` with keys "property" ("{pid}"), "what" (one-line description of the change), "needs" (what is needed for it to manifest), "ran" (the commands you ran and their outcomes: test-suite passed with the change, demo fails with / passes without). Never use `git stash` (the stash is shared between all worktrees of the repository; other people work in sibling worktrees) - save your diff to a file and use `git apply` / `git apply -R` / `git checkout -- .` instead. Leave the worktree clean (`git checkout -- .`) when done. Finish with a brief report (what each change is, where, what it needs to manifest).""", end="")
+if HARD:
+    prev = []
+    for f in sorted(glob.glob(os.path.join("/verif/seeded", pid + "-*", "meta.json"))):
+        prev.append("- " + json.load(open(f))["what"][:300])
+    print(f"""
+
+{len(prev)} changes were already contributed by others for this property; choose DIFFERENT locations and mechanisms than these:
+""" + "\n".join(prev) + """
+
+For this round, make the changes HARDER to notice than a plain wrong formula: prefer (a) changes that only matter after a particular multi-step sequence of public API calls (state carried between calls, caches/buffers, shared objects), (b) two cooperating edits in different functions/files that each look harmless alone, (c) changes that are only wrong for a narrow but valid class of inputs (a specific size parity or size-1 axis, a degenerate-but-valid parameter value, a particular dtype/device/memory layout, an argument passed in an alternative documented form such as tuple vs tensor vs keyword), or (d) changes whose effect is small in magnitude (a few percent, or at the 1e-4 .. 1e-6 level in float64) but systematic. Avoid changes that any single ordinary call with default arguments would expose.""")
+else:
+    print()
